@@ -16,11 +16,11 @@ def obligations(tier):
     r22 = ['0 <= ta <= 1 and 0 <= tb <= 1 and 0 <= ca <= 3 and 0 <= cb <= 3', ln('a1', 'a2', 'b1', 'b2')]
     obs = [
     ] + [
-        Ob(id=f'shape_2v2.a{la}{lb}', module=M, func='shape_2v2_nocolon', params=p22,
-           pre=r22 + [f'len(a1) == {la} and len(a2) == {lb}'], timeout=T, group='shape',
-           bound=f'two 2-element shapes, first shape names of length {la},{lb}, second |s| <= {L}, all of Unicode (without ":"), '
-                 '2 subtype ids, 4 cardinalities, link and implicit-id flags')
-        for la in range(1, L + 1) for lb in range(1, L + 1)
+        Ob(id=f'shape_2v2.a{la}{lb}.b{lc}{ld}', module=M, func='shape_2v2_nocolon', params=p22,
+           pre=r22 + [f'len(a1) == {la} and len(a2) == {lb} and len(b1) == {lc} and len(b2) == {ld}'], timeout=T, group='shape',
+           bound=f'two 2-element shapes, first shape names of length {la},{lb}, second shape names of length {lc},{ld}, '
+                 f'|s| <= {L}, all of Unicode (without ":"), 2 subtype ids, 4 cardinalities, link and implicit-id flags')
+        for la in range(1, L + 1) for lb in range(1, L + 1) for lc in range(0, L + 1) for ld in range(0, L + 1)
     ] + [
         Ob(id='shape_1v2', module=M, func='shape_1v2_nocolon', params='a1: str, b1: str, b2: str', pre=[ln('a1', 'b1', 'b2')],
            timeout=T, group='shape', bound=f'1- vs 2-element shape, names |s| <= {L} (without ":")'),
